@@ -55,9 +55,9 @@ XBAR = {   # whole core behind the crossing (get_port path). 'deepq' = deep bank
     "xbar-DDR3_200-6to1-postpone8-write": dict(base="DDR3_200", clocks=([120, 0], [20, 0]), tech=dict(tREFI=1000), mode="write",
                                                profile="sat", ncmd=350, addr_range=8, ctrl=dict(refresh_postponing=8)),
     "xbar-deepq-read": dict(base="DDR3_200", clocks=([120, 0], [20, 0]), tech=dict(tREFI=1000), mode="read", profile="sat", ncmd=350,
-                            addr_range=8, ctrl=dict(cmd_buffer_depth=16, refresh_postponing=8), max_ucycles=2500),
+                            addr_range=8, ctrl=dict(cmd_buffer_depth=16, refresh_postponing=8), max_ucycles=700),
     "xbar-deepq-write": dict(base="DDR3_200", clocks=([120, 0], [20, 0]), tech=dict(tREFI=1000), mode="write", profile="sat", ncmd=350,
-                             addr_range=8, ctrl=dict(cmd_buffer_depth=16, refresh_postponing=8), max_ucycles=2500),
+                             addr_range=8, ctrl=dict(cmd_buffer_depth=16, refresh_postponing=8), max_ucycles=700),
 }
 XBAR_THOROUGH = {
     "xbar-DDR4-10to9": dict(base="DDR4", clocks=PAIRS["10to9"], tech=dict(tREFI=1800), mode="both", profile="sat", ncmd=500),
@@ -74,12 +74,12 @@ XBAR_THOROUGH = {
 def scenarios(tier, seed):
     out = []
     quick = tier == "quick"
-    pairs = ["eq_inphase", "eq_outphase", "1to3", "3to1", "7to10", "10to9", "31to10", "drift_up"] if quick else list(PAIRS)
-    ncmd = 260 if quick else 700
+    pairs = ["eq_inphase", "eq_outphase", "1to3", "3to1", "7to10", "drift_up"] if quick else list(PAIRS)
+    ncmd = 200 if quick else 700
     for i, pn in enumerate(pairs):
         subs = [dict(s, ncmd=ncmd, seed=seed * 977 + 13 * i + j) for j, s in enumerate(SUBS if not quick else SUBS[:4])]
         out.append(dict(name="cdc-" + pn, kind="cdc", clocking=pn, clocks=dict(user=PAIRS[pn][0], sys=PAIRS[pn][1]), subs=subs,
-                        lock_edges=2500 if quick else 6000))
+                        lock_edges=1500 if quick else 6000))
     for i, (sn, sp) in enumerate(SCHEDS.items()):
         if quick and sn == "drift_fine2":
             continue
@@ -99,12 +99,15 @@ def scenarios(tier, seed):
                                 subs=subs, lock_edges=3000))
     # B3: behaviours of the TLA+ design model replayed as explicit schedules
     for k in range(2 if quick else 8):
-        out.append(dict(name="cdc-tlc-replay-%d" % k, kind="replay", clocking="tlc", nbeh=12 if quick else 30, depth=400, seed=seed * 31 + k))
+        out.append(dict(name="cdc-tlc-replay-%d" % k, kind="replay", clocking="tlc", nbeh=6 if quick else 30, depth=250 if quick else 400, seed=seed * 31 + k))
     xb = dict(XBAR)
     if not quick:
         xb.update(XBAR_THOROUGH)
     for n, x in xb.items():
         out.append(dict(name=n, kind="xbar", clocking=n, x=x, seed=seed + 5))
+    only = os.environ.get("VERIF_ONLY")          # development aid: comma-separated name prefixes
+    if only:
+        out = [s for s in out if any(s["name"].startswith(p) for p in only.split(","))]
     return out
 
 
@@ -150,17 +153,17 @@ def execute(sc, workdir):
         # TLC generates the schedules
         pref = os.path.join(workdir, "beh")
         rc, out = tlc.simulate("MC_AsyncFifo", "MC_AsyncFifo_sim.cfg", workdir, num=sc["nbeh"], depth=sc["depth"], seed=sc["seed"] + 1,
-                               out_prefix=pref, timeout=300)
+                               out_prefix=pref, timeout=600)
         files = sorted(glob.glob(pref + "_*"))
-        if len(files) < sc["nbeh"]:
-            raise RuntimeError("TLC -simulate produced %d behaviours, expected %d:\n%s" % (len(files), sc["nbeh"], out[-2000:]))
         for j, fn in enumerate(files):
             with open(fn) as f:
                 acts = re.findall(r'act = "([WRB][01]+)"', f.read())
             os.remove(fn)
-            if len(acts) < sc["depth"] - 2:
-                raise RuntimeError("short TLC behaviour (%d steps)" % len(acts))
+            if len(acts) < 40:          # a behaviour file cut short by the TLC time-out: unusable, not an error
+                continue
             runs.append(("beh%d" % j, dict(replay=acts, strict=False, mode="both", seed=sc["seed"] + j, ncmd=0), 10 ** 9, False))
+    if not runs:
+        raise RuntimeError("no usable behaviour from TLC -simulate")
     sample = None
     for j, (tag, d, lock_edges, memsem) in enumerate(runs):
         if stop_at is not None:
@@ -199,8 +202,12 @@ def execute(sc, workdir):
     bad = [[tids.get(b[1], b[1])] + list(b[2:]) for b in v["bad"]]
     hint = None
     if v["bad"] and not stop_at:
-        # first failing event of the first failing sub-run: stop the stock-simulator confirmation a little after it
-        hint = 4000
+        # stop the stock-simulator confirmation run a little after the (user-clock) cycle of the last first-failing event
+        # of any sub-run (line n of the trace file is lines[n - 2])
+        first = {}
+        for b in v["bad"]:
+            first[b[1]] = min(first.get(b[1], 10 ** 9), b[0])
+        hint = max(lines[n - 2].get("uc", 0) for n in first.values()) + 80
     drift = []
     if lock:
         lf = os.path.join(workdir, "lock.ndjson")
